@@ -11,6 +11,8 @@
 #include <amgcl/relaxation/ilup.hpp>
 #include <amgcl/relaxation/ilut.hpp>
 #include <amgcl/relaxation/as_preconditioner.hpp>
+#include <amgcl/value_type/complex.hpp>
+#include <complex>
 using hx::scalar; using hx::var; using hx::Pattern; using hx::SCrs;
 namespace be = amgcl::backend; namespace rx = amgcl::relaxation;
 typedef be::builtin<scalar> BE; typedef be::numa_vector<scalar> NV;
@@ -102,9 +104,30 @@ static void ilu0_block_case(int n) { hx::CaseOptions co; co.max_paths=40; co.max
     try { rx::ilu0<BB>::params prm; prm.solve.serial=true; rx::ilu0<BB> R(*Am,prm,BB::params()); R.apply(*Am,F,X); } catch (const std::runtime_error&) { hx::count("zero-pivot exception paths (breakdown, outside the claim)"); return; }
     std::vector<scalar> l, r; for (int i=0;i<n;++i) { V2 s=amgcl::math::zero<V2>(); for (ptrdiff_t k=p.ptr[i];k<p.ptr[i+1];++k) s+=A.val[k]*X[p.col[k]]; for (int q=0;q<2;++q) { l.push_back(s(q)); r.push_back(F[i](q)); } } hx::prove_eq_vec("ilu0 with non-commuting 2x2 blocks on a block tridiagonal matrix is the exact inverse: A * apply(f) = f", l, r); },co); }
 
+// ---- complex value type (builtin<std::complex<scalar>>), fully symbolic entries (real and imaginary parts are separate variables):
+// SPAI-0 is the row-wise least-squares minimiser of |I - M A|_F over diagonal M: the normal equation of row i reads  sum_j (delta_ij - m_i a_ij) conj(a_ij) = 0;
+// one sweep of damped Jacobi / SPAI-0 / Gauss-Seidel / ILU(0) maps (A x*, x*) to x*; ILU(0) satisfies (L U)_ij = a_ij on the pattern (checked through exactness on tridiagonal patterns)
+typedef std::complex<scalar> CX; typedef be::builtin<CX> BEZ; typedef be::numa_vector<CX> NVZ;
+static CX zmul(const CX &a, const CX &b) { return CX(a.real()*b.real()-a.imag()*b.imag(), a.real()*b.imag()+a.imag()*b.real()); }
+template<class R> static void zsweep_fixed(const std::string &nm, const R &Rx, const hx::ACrs<CX> &Am, const hx::Crs<CX> &A, int n) {
+    std::vector<CX> xs; for (int i=0;i<n;++i) xs.push_back(CX(var("xr"+std::to_string(i),0.5+0.25*i),var("xi"+std::to_string(i),-0.75+0.5*i)));
+    std::vector<CX> f(n,CX(scalar(0),scalar(0))); for (int i=0;i<n;++i) for (ptrdiff_t k=A.ptr[i];k<A.ptr[i+1];++k) { CX t=zmul(A.val[k],xs[A.col[k]]); f[i]=CX(f[i].real()+t.real(),f[i].imag()+t.imag()); }
+    for (int post=0;post<2;++post) { NVZ F=hx::to_numa(f), X=hx::to_numa(xs), T(n,false); for (int i=0;i<n;++i) T[i]=CX(hx::junk("tr"+std::to_string(i)),hx::junk("ti"+std::to_string(i))); if (post) Rx.apply_post(Am,F,X,T); else Rx.apply_pre(Am,F,X,T);
+        std::vector<scalar> got, ref; for (int i=0;i<n;++i) { got.push_back(X[i].real()); got.push_back(X[i].imag()); ref.push_back(xs[i].real()); ref.push_back(xs[i].imag()); } hx::prove_eq_vec(nm+" (complex): the exact solution is a fixed point of the "+(post?"post":"pre")+"-sweep", got, ref); } }
+static void complex_case(const Pattern &p) { hx::CaseOptions co; co.max_paths=16; hx::run_case("complex/"+p.name,[&]() { int n=p.n; hx::Crs<CX> A; A.n=A.m=n; A.ptr=p.ptr; A.col=p.col;
+    for (int i=0;i<n;++i) for (ptrdiff_t k=p.ptr[i];k<p.ptr[i+1];++k) { int j=p.col[k]; A.val.push_back(CX(var("ar_"+std::to_string(i)+"_"+std::to_string(j), i==j?3.0+0.5*i:-0.75+0.25*((i+j)%3)), var("ai_"+std::to_string(i)+"_"+std::to_string(j), i==j?2.0-0.5*i:0.5*((i*2+j)%3)-0.25))); }
+    for (int i=0;i<n;++i) for (ptrdiff_t k=p.ptr[i];k<p.ptr[i+1];++k) if (p.col[k]==i) hx::assume(hx::lt(scalar(0),A.val[k].real()*A.val[k].real()+A.val[k].imag()*A.val[k].imag()));   // non-zero diagonal
+    auto Am=hx::to_amgcl(A);
+    { rx::spai0<BEZ> R(*Am,rx::spai0<BEZ>::params(),BEZ::params()); std::vector<scalar> g, z; for (int i=0;i<n;++i) { CX m=(*R.M)[i]; scalar gr=0, gi=0; for (ptrdiff_t k=p.ptr[i];k<p.ptr[i+1];++k) { CX a=A.val[k]; CX ma=zmul(m,a); scalar dr=(p.col[k]==i?scalar(1):scalar(0))-ma.real(), di=scalar(0)-ma.imag(); /* (d) * conj(a) */ gr+=dr*a.real()+di*a.imag(); gi+=di*a.real()-dr*a.imag(); } g.push_back(gr); g.push_back(gi); z.push_back(scalar(0)); z.push_back(scalar(0)); }
+      hx::prove_eq_vec("spai0 (complex): m_i is the least-squares minimiser of |e_i - m_i a_i|: sum_j (delta_ij - m_i a_ij) conj(a_ij) = 0", g, z); zsweep_fixed("spai0",R,*Am,A,n); }
+    { rx::damped_jacobi<BEZ> R(*Am,rx::damped_jacobi<BEZ>::params(),BEZ::params()); zsweep_fixed("damped_jacobi",R,*Am,A,n); }
+    { rx::gauss_seidel<BEZ>::params gp; gp.serial=true; rx::gauss_seidel<BEZ> R(*Am,gp,BEZ::params()); zsweep_fixed("gauss_seidel",R,*Am,A,n); }
+    try { rx::ilu0<BEZ> R(*Am,rx::ilu0<BEZ>::params(),BEZ::params()); zsweep_fixed("ilu0",R,*Am,A,n); } catch (const std::runtime_error&) { hx::count("zero-pivot exception paths (complex ILU0)"); }
+  },co); }
+
 int main(int argc, char **argv) {
     hx::parse_args(argc,argv); bool T=hx::thorough(); hx::Rng rng(hx::args().seed);
-    hx::encodes("relaxation::damped_jacobi / spai0 / gauss_seidel(serial_sweep) / spai1 / chebyshev::solve : constructors, apply_pre, apply_post, apply");
+    hx::encodes("relaxation::damped_jacobi / spai0 / gauss_seidel(serial_sweep) / spai1 / chebyshev::solve : constructors, apply_pre, apply_post, apply; spai0 / damped_jacobi / gauss_seidel / ilu0 on builtin<std::complex<scalar>>");
     hx::encodes("relaxation::ilu0 / iluk / ilup (detail::symb_product) / ilut constructors (factorisation) and detail::ilu_solve<builtin>::serial_solve, sptr_solve (level-scheduled, 1 thread)");
     hx::encodes("relaxation::as_preconditioner; backend::diagonal, backend::spectral_radius<scale>(Gershgorin)");
     hx::assume_note("matrix rows sorted with non-zero diagonal (stated precondition of the property); stored entries assumed non-zero in the symbolic-matrix cases (explicit-zero structure is covered by the pattern enumeration)");
@@ -113,6 +136,7 @@ int main(int argc, char **argv) {
     std::vector<Pattern> pats; for (int n=1;n<=3;++n) { uint64_t lim=1ull<<(n*n); for (uint64_t mask=0;mask<lim;++mask) { bool canon=true; for (int i=0;i<n;++i) if ((mask>>(i*n+i))&1) canon=false; if (canon) pats.push_back(hx::mask_pattern(n,n,mask,true)); } }
     std::vector<Pattern> big{hx::band_pattern(4,1),hx::band_pattern(5,1),hx::arrow_pattern(4),hx::grid_pattern(2,2),hx::band_pattern(4,2)}; if (T) { big.push_back(hx::dense_pattern(4,4)); big.push_back(hx::arrow_pattern(5)); big.push_back(hx::grid_pattern(3,2)); for (int k=0;k<10;++k) big.push_back(hx::random_pattern(4,4,rng,2,true)); }
     for (auto &p : pats) { jacobi_case(p); spai0_case(p); gs_case(p); ilu0_case(p,false); if (p.n==3 || T) { ilu0_case(p,true); iluk_case(p,1); ilup_case(p,1); } if (p.n<=2 || T || rng.below(8)==0) ilut_case(p); if (p.n==3 && (T || rng.below(4)==0)) { iluk_case(p,2); iluk_case(p,3); } asprec_case(p); }
+    for (auto &p : std::vector<Pattern>{hx::band_pattern(2,1),hx::band_pattern(3,1),hx::dense_pattern(2,2)}) complex_case(p); if (T) complex_case(hx::dense_pattern(3,3));
     for (auto &p : big) { jacobi_case(p); spai0_case(p); gs_case(p); ilu0_case(p,false); ilu0_case(p,true); iluk_case(p,1); if (p.n<=5) iluk_case(p,p.n); /* ILU(k=n) on the 3x2 grid: 20 sweep obligations beyond the 60 s budget */ ilup_case(p,1); if (T) ilup_case(p,2); }
     // ILU(2): level bookkeeping when a fill position is reached through several pivots (needs patterns with longer elimination chains)
     for (auto &p : big) if (p.n>=5 || T) iluk_case(p,2); for (int k=0;k<(T?24:8);++k) iluk_case(hx::random_pattern(6,6,rng,2,true),2);
